@@ -1,7 +1,7 @@
 (** The byte pump: what it emits and how it ends, as functions of the processor's trace. *)
 From Coq Require Import ZArith List String Bool Lia.
 From TV Require Import Layout.Types Base.Bytes Model.Monad Model.Constraints Model.Ints Model.Decoder Model.Message
-  Model.Pump Proofs.Account Proofs.Incremental.
+  Model.Pump Proofs.LowClosure Proofs.Account Proofs.Incremental.
 Import ListNotations.
 Open Scope list_scope.
 Open Scope Z_scope.
@@ -138,7 +138,7 @@ Proof.
     injection H as _ <- ->. eapply IH. exact E.
 Qed.
 
-Lemma more_empty_lclosed : LowClosure.lclosed (@more_empty).
+Lemma more_empty_lclosed : lclosed (@more_empty).
 Proof.
   constructor.
   - intros A a s tr s' H. discriminate.
@@ -159,7 +159,7 @@ Proof.
   - intros l s tr s' H. discriminate.
   - intros i s tr s' H. discriminate.
   - intros i s tr s' H. discriminate.
-  - intros A abort ids m h Hm Hh s tr s' H. unfold catch_exceeded in H. destruct (m s) as [[tr1 s1] o1] eqn:E1.
+  - intros A abort ids m h _ Hm Hh s tr s' H. unfold catch_exceeded in H. destruct (m s) as [[tr1 s1] o1] eqn:E1.
     destruct o1 as [a|e| |k|]; try discriminate.
     + destruct e as [| c v b | | | | |]; try discriminate.
       destruct (abort || negb (existsb (Nat.eqb (si_id c)) ids)); [discriminate|].
@@ -180,7 +180,7 @@ Proof.
   destruct p as [v|e| |k|]; try discriminate.
   - destruct (skipZ input (ps_nrd ps)); discriminate.
   - exists tr, s'. split; [reflexivity|].
-    assert (I : inp s' = []) by (eapply (LowClosure.L_dec_root _ more_empty_lclosed); exact E).
+    assert (I : inp s' = []) by (eapply (L_dec_root _ more_empty_lclosed); exact E).
     split; [exact I|]. rewrite A, I, app_nil_r. reflexivity.
 Qed.
 
